@@ -71,9 +71,17 @@ class Gen:
         self.anc = []         # ids of ancestors (for cycles)
         self.members = {"m1.bin", "m2.npy", "m3.npz"}
         self.wellformed = True
+        self.canary_modules = None
 
     # ------------------------------------------------------------ names / ids
     def names(self, loader):
+        if self.canary_modules is not None:
+            # every name slot gets a fresh importable-but-not-imported module (C02)
+            if self.r.random() < 0.75:
+                k = len(self.canary_modules)
+                self.canary_modules.append(f"verif_cm_{k}")
+                return (f"verif_cm_{k}", self.r.choice(["C", "f", "missing"]))
+            return self.r.choice(TYPICAL[loader])
         r = self.r.random()
         if r < 0.62:
             return self.r.choice(TYPICAL[loader])
@@ -261,7 +269,8 @@ class Gen:
 
     def b_LossNode(self, d):
         st = self.reduce_like("LossNode", d)
-        st["__module__"], st["__class__"] = self.r.choice(LOSS_POOL)
+        if self.canary_modules is None:
+            st["__module__"], st["__class__"] = self.r.choice(LOSS_POOL)
         return st
 
     def b_QuantileForestNode(self, d):
@@ -356,8 +365,9 @@ def depth_of(j):
     return 0
 
 
-def gen_case(rnd, protocols=(2, 2, 2, 1, 0, 3), malformed_p=0.35, max_depth=4):
+def gen_case(rnd, protocols=(2, 2, 2, 1, 0, 3), malformed_p=0.35, max_depth=4, canary_modules=None):
     g = Gen(rnd, protocol=rnd.choice(protocols))
+    g.canary_modules = canary_modules
     sch = g.schema(rnd.randint(0, max_depth))
     malformed = rnd.random() < malformed_p
     notes = []
